@@ -57,3 +57,36 @@ Print Assumptions C05_hinv_set_pointer.
 (* non-vacuity: the invariant holds for a fresh message (null root word, empty tables) *)
 Theorem C05_hinv_initial : hinv hinv_ex_msg [] [].
 Proof. exact hinv_initial. Qed.
+
+(* ------------------------------------------------------------------ over op lists *)
+From CV Require Import Core.BuildOps Core.BuildInv Core.HeapOps Core.HeapValid.
+
+(* hinv implies the strict validity predicate (worklist terminates within its fuel; all regions
+   collected are table regions, pairwise equal or disjoint) *)
+Theorem C05_hinv_valid : forall m objs pads, hinv m objs pads -> valid_message (bm_data m) = VOk.
+Proof. exact hinv_valid. Qed.
+Print Assumptions C05_hinv_valid.
+
+(* every step of the sub-language keeps "pool = table" and the invariant *)
+Theorem C05_step_hinv : forall e st pads o st' out,
+  sinv st pads -> sub_op o = true -> bstep e st o = (Some st', out) ->
+  nsegs (w_dst (st_w st')) < 4294967296 ->
+  exists pads', sinv st' pads'.
+Proof. exact bstep_hinv. Qed.
+Print Assumptions C05_step_hinv.
+
+(* C05 for the sub-language: all arena configurations with a root word, all programs accepted
+   by the executable predicate sub_prog, all reachable states (fewer than 2^32 segments):
+   the message under construction passes the strict validity predicate *)
+Theorem C05_heap_inv_sublang : forall a cfgd cfgs ncaps fuel src ops m,
+  arena_spec_wf a -> root_cap_ok a -> create a (init_rlimit cfgd) = Ok m -> sub_prog ops = true ->
+  let st0 := mkBSt (mkW m src (init_rlimit cfgs)) [] in
+  Forall seg_bound (bstates (mkEnv cfgd cfgs ncaps fuel) st0 ops) ->
+  Forall (fun st => valid_message (bm_data (w_dst (st_w st))) = VOk) (bstates (mkEnv cfgd cfgs ncaps fuel) st0 ops).
+Proof. exact heap_inv_sublang_valid. Qed.
+Print Assumptions C05_heap_inv_sublang.
+
+Theorem C05_sublang_example :
+  sub_prog [BNewStruct 0 0 1; BNewStruct 1 8 0; BSetUint 1 0 8 258; BSetPtr 0 0 1; BSetRoot 0] = true /\
+  arena_spec_wf (ArRaw [24; 16]) /\ root_cap_ok (ArRaw [24; 16]).
+Proof. exact sublang_example. Qed.
